@@ -35,6 +35,8 @@ def section(text, pattern, limit=900):
 def main():
   res_path = os.path.join(SEEDED, 'results.json')
   results = json.load(open(res_path)) if os.path.exists(res_path) else {}
+  bpath = os.path.join(SEEDED, 'baseline_results.json')
+  baseline = json.load(open(bpath)) if os.path.exists(bpath) else {}
   n = 0
   for d in sorted(glob.glob(os.path.join(SEEDED, 'C*-*'))):
     sid = os.path.basename(d)
@@ -60,11 +62,14 @@ def main():
         'demonstration': demo,
         'demonstration_confirmed': r.get('confirm'),
         'repository_tests_with_the_change': suites or ['see notes.md'],
+        'pinned_baseline_rerun_here': baseline.get(sid, {'summary': 'not run'}),
         'what_was_run': {
             'confirm': 'tools/seed_confirm.py seeded/%s [--suite]: demo exits 0 on a scratch worktree of /repo HEAD, '
                        'non-zero after `git apply --3way patch.diff`; --suite also runs the pinned 158-test '
                        'baseline and tools/fullsuite.sh on the patched worktree' % sid,
             'checks': 'tools/seed_eval.py seeded/%s/patch.diff <checks> (quick tier, VERIF_REPO=scratch worktree)' % sid,
+            'baseline': 'tools/seed_baseline.py: the pinned test command on a scratch worktree with the patch '
+                        'applied (all 158 baseline tests must still pass)',
         },
         'checks_run': {c: {'exit': v.get('exit'), 'violations': v.get('n_keys'),
                            'first_keys': v.get('keys', [])[:3]} for c, v in sorted(checks.items())},
